@@ -154,15 +154,14 @@ def field_reads(fn, rec, field):
 
 
 def is_const(fn, i, v=None):
-    j = fn.strip(i)
-    nd = fn.nodes[j]
-    val = None
-    if nd["k"] in ("Int", "Char"):
-        val = nd["v"]
-    elif "cv" in nd:
-        val = nd["cv"]
-    else:
-        return False
+    val = fn.constval(i)
+    if val is None:
+        j = fn.strip(i)
+        nd = fn.nodes[j]
+        if "cv" in nd and nd["k"] != "DeclRef":
+            val = nd["cv"]
+        else:
+            return False
     return v is None or val == v
 
 
